@@ -59,6 +59,8 @@ struct Config {
     exec_area: Option<u64>,
     /// after this many executed instructions the host overwrites an instruction that has already run with one-byte NOPs
     patch: Option<u64>,
+    /// the stack comes from init_stack_program_start (entry frame with argc/argv/envp) instead of init_stack
+    program_start: bool,
 }
 
 const EXTRA_EXEC_AT: u64 = 0x5550_0000;
@@ -82,8 +84,10 @@ fn apply_patch(ax: &mut Axecutor, at: u64, len: usize) -> bool {
 
 impl C11 {
     fn build(&self, prog: &proggen::Prog, cfg: &Config) -> Option<Axecutor> {
-        let mut ax = catch(|| proggen::build(prog, cfg.with_stack)).ok()?.ok()?;
-        if !cfg.with_stack {
+        let mut ax = catch(|| proggen::build(prog, cfg.with_stack && !cfg.program_start)).ok()?.ok()?;
+        if cfg.program_start {
+            catch(|| ax.init_stack_program_start(0x1000, vec!["prog".to_string(), "-x".to_string()], vec!["A=b".to_string()])).ok()?.ok()?;
+        } else if !cfg.with_stack {
             catch(|| ax.mem_init_zero(0x7000_0000, 0x2000)).ok()?.ok()?;
             catch(|| ax.reg_write_64(SR::RSP, 0x7000_1000)).ok()?.ok()?;
         }
@@ -103,7 +107,7 @@ impl C11 {
         let opts = ProgOpts { fault_tail: true, unbalanced_ret: true, ..Default::default() };
         let prog = proggen::gen_prog(rng, &opts);
         // reference run without limit / hooks to learn the length
-        let base_cfg = Config { limit: None, stop: None, with_stack: rng.below(6) != 0, relimit: None, exec_area: None, patch: None };
+        let base_cfg = Config { limit: None, stop: None, with_stack: rng.below(6) != 0, relimit: None, exec_area: None, patch: None, program_start: false };
         let Some(mut probe) = self.build(&prog, &base_cfg) else {
             col.count("build_failed", 1);
             return;
@@ -135,7 +139,7 @@ impl C11 {
             }
         }
         for _ in 0..4 {
-            cfgs.push(Config { limit: if rng.below(3) == 0 { Some(rng.below(lim_max)) } else { None }, stop: Some((rng.below(2) == 0, rng.below(len + 1))), with_stack: base_cfg.with_stack, relimit: None, exec_area: None, patch: None });
+            cfgs.push(Config { limit: if rng.below(3) == 0 { Some(rng.below(lim_max)) } else { None }, stop: Some((rng.below(2) == 0, rng.below(len + 1))), with_stack: base_cfg.with_stack, relimit: None, exec_area: None, patch: None, program_start: false });
         }
         // the limit set or changed in the middle of the run (resume with a larger budget, cut a run short, first limit late)
         for _ in 0..4 {
@@ -152,8 +156,12 @@ impl C11 {
                 3 => rng.below(j + 1),
                 _ => rng.below(lim_max + 2),
             };
-            cfgs.push(Config { limit: first, stop: None, with_stack: base_cfg.with_stack, relimit: Some((j, n2)), exec_area: None, patch: None });
+            cfgs.push(Config { limit: first, stop: None, with_stack: base_cfg.with_stack, relimit: Some((j, n2)), exec_area: None, patch: None, program_start: false });
         }
+        // the same programs on a process-entry stack: "top-level RET finds the stack empty" is the stack pointer back
+        // where the set-up call left it, whichever call set it up; a RET one or more calls deep returns
+        cfgs.push(Config { program_start: true, with_stack: true, ..base_cfg.clone() });
+        cfgs.push(Config { program_start: true, with_stack: true, limit: Some(rng.below(lim_max)), ..base_cfg.clone() });
         // the host maps a second executable area (before or during the run): "the end of the initial code" stays where it was;
         // the host rewrites an instruction that has already been executed (a loop body, a function called twice): the
         // next visit executes what is in memory then
